@@ -323,6 +323,17 @@ func c09Gen(t *rapid.T) C09Case {
 }
 
 func c09LongPrefix(t *rapid.T, target int) []int {
+	if chance(t, "longdebugrun", 35) {
+		// debug mode switched on ONCE, then a long run without any SetDebug call: reconfigurations between the two
+		// configurations, rejected reconfigurations (i.e. nothing but observations: hundreds to thousands of requests,
+		// about half of them preflights, served in one unbroken stretch of debug mode)
+		out := []int{pick(t, "longcfg", []int{opReconfA, opReconfB}), opDebugOn}
+		block := [][]int{{opReconfInvalid}, {opReconfA, opReconfB}, {opReconfB}, {opReconfInvalid, opReconfA}}[uniform(t, "longblock", 4)]
+		for len(out) < target {
+			out = append(out, block...)
+		}
+		return out
+	}
 	var block []int
 	for i, n := 0, intIn(t, "blocklen", 1, 4); i < n; i++ {
 		// mostly successful reconfigurations: they are what such counters count
